@@ -207,9 +207,17 @@ class RealSession:
         self.tagmap: dict = {}       # id(function) -> xhook tuple
         self.keep: list = []         # keep function objects alive (ids must stay unique)
         self.opt_objs = {}           # (opt, value id) -> python object
+        self.memo = {}
 
     # -- tagged callables
     def user_hook(self, d, n):
+        if (d, n) in self.memo:
+            return self.memo[(d, n)]          # the same hook object when a registration is repeated
+        h = self._user_hook(d, n)
+        self.memo[(d, n)] = h
+        return h
+
+    def _user_hook(self, d, n):
         m = Marker(("XUser", n))
         if d == "DUn":
             def h(v, _m=m): return _m
@@ -230,6 +238,14 @@ class RealSession:
         return h
 
     def factory(self, d, fid, ext, wrap=False):
+        key = ("fact", d, fid, ext, wrap)
+        if key in self.memo:
+            return self.memo[key]
+        f = self._factory(d, fid, ext, wrap)
+        self.memo[key] = f
+        return f
+
+    def _factory(self, d, fid, ext, wrap=False):
         sess = self
         if wrap:
             # finding F8 shape: a user factory that post-processes Converter.gen_unstructure_iterable
@@ -516,6 +532,8 @@ class Gen:
     def __init__(self, rng: random.Random, pool: Pool, preds, tier: str):
         self.rng, self.pool, self.preds, self.tier = rng, pool, preds, tier
         self.tag = 0
+        self.done = []
+        pool.types_by_id = {i: t for t, i in pool.ids.items()}
 
     def fresh(self):
         self.tag += 1
@@ -548,6 +566,18 @@ class Gen:
         return o
 
     def reg_step(self, i, allow_union_struct=True, allow_wrap=False, full=True):
+        r = self.rng
+        # now and then repeat an earlier registration verbatim (same predicate object, same hook object):
+        # a repeated registration is still the most recent one
+        if self.done and r.random() < 0.12:
+            prev = r.choice(self.done)
+            if prev[1] == i and (allow_union_struct or prev[0] != "reghook" or prev[2] == "DUn" or not self.pool.is_union(self.pool.types_by_id[prev[3]])):
+                return prev
+        s = self._reg_step(i, allow_union_struct, allow_wrap, full)
+        self.done.append(s)
+        return s
+
+    def _reg_step(self, i, allow_union_struct=True, allow_wrap=False, full=True):
         r = self.rng
         d = r.choice(["DUn", "DSt"])
         k = r.random()
